@@ -103,6 +103,7 @@ def invocations(src, img, undo):
         ("e2image -Q", [T("misc/e2image"), "-Q", img, out + ".qcow"], True),
         ("e2freefrag", [T("misc/e2freefrag"), img], True),
         ("e2undo -n", [T("misc/e2undo"), "-n", undo, img], True),
+        ("e2undo -n (incomplete undo record)", [T("misc/e2undo"), "-n", undo + ".unfinished", img], True),
         ("mke2fs -n", [T("misc/mke2fs"), "-n", "-t", "ext4", img], False),   # may open read-write, must not write
     ]
 
@@ -135,6 +136,15 @@ def run(res, replay=None):
         e2v.sh([os.path.join(src, "misc/tune2fs"), "-z", undo, "-L", "x", cp], env=env, timeout=120)
         if os.path.exists(cp) and os.path.exists(undo):
             shutil.copy(cp, img + ".forundo")
+        # an undo file whose writer never finished (header without the FINISHED state)
+        cp2 = img + ".cp2"
+        shutil.copy(img, cp2)
+        if os.path.exists(undo + ".unfinished"):
+            os.unlink(undo + ".unfinished")
+        e2v.sh([os.path.join(src, "misc/tune2fs"), "-z", undo + ".unfinished", "-L", "y", cp2],
+               env=dict(env, UNDO_IO_SIMULATE_UNFINISHED="1"), timeout=120)
+        if os.path.exists(undo + ".unfinished"):
+            shutil.copy(cp2, img + ".forundo2")
         before = sha(img)
         for name, cmd, must_rdonly in invocations(src, img, undo):
             target = img
@@ -143,6 +153,11 @@ def run(res, replay=None):
                     continue
                 target = img + ".forundo"
                 cmd = [cmd[0], "-n", undo, target]
+            if name.startswith("e2undo -n (incomplete"):
+                if not os.path.exists(img + ".forundo2"):
+                    continue
+                target = img + ".forundo2"
+                cmd = [cmd[0], "-n", undo + ".unfinished", target]
             b4 = sha(target)
             for f in os.listdir(WORK):
                 if f.startswith("out.scratch"):
@@ -164,7 +179,7 @@ def run(res, replay=None):
                 why = "target opened with access mode %s (model: O_RDONLY)" % opens
             if why:
                 bad.append({"state": label, "invocation": name, "cmd": " ".join(os.path.basename(c) if "/" in c else c for c in cmd), "why": why})
-        for suffix in (".undo", ".cp", ".forundo", ".trace", ".forundo.trace"):
+        for suffix in (".undo", ".cp", ".cp2", ".forundo", ".forundo2", ".undo.unfinished", ".trace", ".forundo.trace", ".forundo2.trace"):
             if os.path.exists(img + suffix):
                 os.unlink(img + suffix)
         if sha(img) != before:
@@ -174,7 +189,7 @@ def run(res, replay=None):
     res.cov["correspondence"] = {"runs": nruns, "mismatches": len(bad),
                                  "compared": "access mode of every open of the target vs the model (O_RDONLY), absence of write/pwrite/ftruncate/fallocate on it, sha256 before = after"}
     res.cov["oracle"] = {"evaluations": nruns, "failures": len(bad), "by_invocation": dist}
-    res.cov["rule"] = "image states (clean x feature sets, journal needing recovery, non-empty orphan list, MMP, quota, structured corruptions) x 20 read-only invocations; every pair is distinct and non-trivial"
+    res.cov["rule"] = "image states (clean x feature sets, journal needing recovery, non-empty orphan list, MMP, quota, structured corruptions) x 21 read-only invocations; every pair is distinct and non-trivial"
     res.add_obligation("no write-class call, unchanged bytes, read-only open mode on all runs", not bad)
     for b in bad[:3]:
         res.violation("oracle", b, signature="c13:%s:%s" % (b["invocation"], b["state"][:40]))
